@@ -58,8 +58,8 @@ Definition bool_de (l : list Z) : option (bool * list Z) :=
   end.
 
 Definition c_bool : codec bool :=
-  mkCodec (fun b => [if b then 1 else 0]) bool_de (fun _ : bool => True)
-          (fun b => [if b then 1 else 0])
+  mkCodec (fun b : bool => [if b then 1 else 0]) bool_de (fun _ : bool => True)
+          (fun b : bool => [if b then 1 else 0])
           (fun l => match l with z :: r => Some (negb (z =? 0), r) | [] => None end).
 
 (* ---------------- Vec<u8> ---------------- *)
